@@ -24,6 +24,20 @@ func main() {
 		cmdFn(os.Args[2:])
 	case "check":
 		os.Exit(cmdCheck(os.Args[2:]))
+	case "frame":
+		// govc frame <pkg-suffix> <key> : print the inferred may-write set
+		e, err := engine.Load()
+		if err != nil {
+			fmt.Fprintln(os.Stderr, err)
+			os.Exit(2)
+		}
+		fn := e.FindFunc(os.Args[2], os.Args[3])
+		if fn == nil {
+			fmt.Fprintln(os.Stderr, "function not found")
+			os.Exit(2)
+		}
+		start := time.Now()
+		fmt.Println(fn, e.Frames().MayWrite(fn), time.Since(start))
 	default:
 		fmt.Fprintln(os.Stderr, "unknown command", os.Args[1])
 		os.Exit(2)
@@ -73,6 +87,11 @@ func cmdFn(args []string) {
 		obs = append(obs, p.Obligs...)
 		if *showPaths {
 			fmt.Printf("  path %s: %s %s obligs=%d calls=%v\n", p.Decisions, p.Outcome, p.Msg, len(p.Obligs), p.Calls)
+			if os.Getenv("GOVC_PC") != "" {
+				for _, c := range p.PC {
+					fmt.Printf("      pc: %s\n", trunc(c.String(), 300))
+				}
+			}
 		}
 	}
 	fmt.Println("outcomes:", outc)
